@@ -221,7 +221,7 @@ theorem transfer_shape {c : Cfg} (hg : good c = true) {n : Nat} {v v' : VS} (hi 
       v'.sinfo t = some ⟨v.period + 1, v'.tokensFromSharesTrunc ((v.del t).getD 0 + X), h⟩ ∧
       v'.sinfo f = (if fsh - X = 0 then none else some ⟨v.period, v'.tokensFromSharesTrunc (fsh - X), h⟩) ∧
       (∀ d, d ≠ f → d ≠ t → v'.sinfo d = v.sinfo d) ∧ (∀ x, x < v.period → v'.ratio x = v.ratio x) ∧
-      v'.slashes = v.slashes := by
+      v'.slashes = v.slashes ∧ v'.ratio v.period = v.ratioAt (v.period - 1) + curRatio v v.tokens := by
   obtain ⟨fsh, v1, v2, v3, hdf, _, hle, h1, h2, h3, h4⟩ := transfer_ok hg hne ht
   -- phase 1
   obtain ⟨sh, hsh, c1, p1, r1, o1, s1, rf1, sf1⟩ := withdrawMsg_shape hi.ri hi.dom hf h1
@@ -260,7 +260,8 @@ theorem transfer_shape {c : Cfg} (hg : good c = true) {n : Nat} {v v' : VS} (hi 
     have hP3 : v3.period = v.period + 2 := by omega
     have hsl2 := xferLookup_slashes hl
     have hsl1 := withdrawMsg_slashes h1
-    refine ⟨fsh, hdf, by omega, by rw [c4, c3]; exact c2, ?_, ?_, ?_, ?_, ?_, by rw [e4, e3, hsl2, hsl1]⟩
+    refine ⟨fsh, hdf, by omega, by rw [c4, c3]; exact c2, ?_, ?_, ?_, ?_, ?_, by rw [e4, e3, hsl2, hsl1],
+      by rw [r4, r3, o2 _ (by omega)]; exact r1⟩
     · -- ratios: record P (written by phase 1) = record P+1 (written by phase 2 with nothing accrued)
       rw [r4, r4, r3]
       have a : v2.ratio v.period = v1.ratio v.period := o2 _ (by omega)
@@ -406,7 +407,7 @@ theorem transfer_nothing_pending {c : Cfg} (hg : good c = true) {n : Nat} {v v' 
     {recv : Bool} (hf : f < n) (htn : t < n) (hne : f ≠ t) (ht : VS.transfer c v h f t X recv = .ok (v', rf, rt))
     {d sh h' : Nat} (hd : d = f ∨ d = t) (hdel : v'.del d = some sh) (hh : h ≠ h') :
     ∃ v'', v'.withdrawMsg h' d = .ok (v'', 0) := by
-  obtain ⟨fsh, hdf, hP, hcur, hrat, hst, hsf, _, _, hsl⟩ := transfer_shape hg hi hf htn hne ht
+  obtain ⟨fsh, hdf, hP, hcur, hrat, hst, hsf, _, _, hsl, _⟩ := transfer_shape hg hi hf htn hne ht
   obtain ⟨fsh', hdf', _, _, htok', hsh', hdel'⟩ := transfer_del hg hne ht
   rw [hdf] at hdf'; cases hdf'
   -- the invariant of the final state
@@ -470,5 +471,187 @@ theorem transfer_nothing_pending {c : Cfg} (hg : good c = true) {n : Nat} {v v' 
     · rw [hp]; exact hrat
     · rw [hp]
   · rcases hper with hp | hp <;> omega
+
+/-! ### a transfer leaves every third party's pending rewards exactly as they were -/
+
+theorem between_congr {v w : VS} {sp e1 e2 st : Nat} (h1 : v.ratioAt sp = w.ratioAt sp) (h2 : v.ratioAt e1 = w.ratioAt e2)
+    (hle1 : sp ≤ e1) (hle2 : sp ≤ e2) : v.between sp e1 st = w.between sp e2 st := by
+  unfold VS.between
+  rw [if_neg (by omega : ¬ e1 < sp), if_neg (by omega : ¬ e2 < sp), h1, h2]
+
+theorem slashLoop_congr {v w : VS} : ∀ (evs : List SlashEv) (rew sp st : Nat),
+    v.ratioAt sp = w.ratioAt sp → (∀ e, e ∈ evs → v.ratioAt e.period = w.ratioAt e.period) →
+    v.slashLoop evs rew sp st = w.slashLoop evs rew sp st := by
+  intro evs
+  induction evs with
+  | nil => intro rew sp st _ _; rfl
+  | cons e es ih =>
+    intro rew sp st hsp he
+    have h1 := he e (List.mem_cons_self ..)
+    have hes : ∀ x, x ∈ es → v.ratioAt x.period = w.ratioAt x.period := fun x hx => he x (List.mem_cons_of_mem _ hx)
+    unfold VS.slashLoop
+    by_cases hlt : sp < e.period
+    · rw [if_pos hlt, if_pos hlt, between_congr hsp h1 (Nat.le_of_lt hlt) (Nat.le_of_lt hlt)]
+      cases hb : w.between sp e.period st with
+      | error x => rfl
+      | ok r => exact ih _ _ _ h1 hes
+    · rw [if_neg hlt, if_neg hlt]
+      exact ih _ _ _ hsp hes
+
+/-- the slash loop never moves the starting period above the bound of its inputs -/
+theorem slashLoop_bound {v : VS} {B : Nat} : ∀ (evs : List SlashEv) (rew sp st : Nat) (r : Nat × Nat × Nat),
+    (∀ e, e ∈ evs → e.period ≤ B) → sp ≤ B → v.slashLoop evs rew sp st = .ok r →
+    r.2.1 ≤ B ∧ (r.2.1 = sp ∨ ∃ e, e ∈ evs ∧ r.2.1 = e.period) := by
+  intro evs
+  induction evs with
+  | nil =>
+    intro rew sp st r _ hsp h
+    cases h
+    exact ⟨hsp, Or.inl rfl⟩
+  | cons e es ih =>
+    intro rew sp st r he hsp h
+    have h1 := he e (List.mem_cons_self ..)
+    have hes : ∀ x, x ∈ es → x.period ≤ B := fun x hx => he x (List.mem_cons_of_mem _ hx)
+    unfold VS.slashLoop at h
+    by_cases hlt : sp < e.period
+    · rw [if_pos hlt] at h
+      split at h
+      · cases h
+      · obtain ⟨a, b⟩ := ih _ _ _ r hes h1 h
+        refine ⟨a, Or.inr ?_⟩
+        rcases b with b | ⟨x, hx, b⟩
+        · exact ⟨e, List.mem_cons_self .., b⟩
+        · exact ⟨x, List.mem_cons_of_mem _ hx, b⟩
+    · rw [if_neg hlt] at h
+      obtain ⟨a, b⟩ := ih _ _ _ r hes hsp h
+      refine ⟨a, ?_⟩
+      rcases b with b | ⟨x, hx, b⟩
+      · exact Or.inl b
+      · exact Or.inr ⟨x, List.mem_cons_of_mem _ hx, b⟩
+
+/-- `CalculateDelegationRewards` gives the same answer on two records that agree on the delegator's starting info,
+the slash events, the exchange rate, the cumulative ratios of the referenced periods and of the two ending periods -/
+theorem calcRewards_congr {v w : VS} {h d sh e1 e2 : Nat} {si : SInfo} (hs1 : v.sinfo d = some si) (hs2 : w.sinfo d = some si)
+    (hsl : w.slashes = v.slashes) (htok : w.tokensFromShares sh = v.tokensFromShares sh)
+    (hsi : v.ratioAt si.period = w.ratioAt si.period)
+    (hev : ∀ e, e ∈ v.slashes → v.ratioAt e.period = w.ratioAt e.period)
+    (hend : v.ratioAt e1 = w.ratioAt e2)
+    (hb1 : si.period ≤ e1 ∧ ∀ e, e ∈ v.slashes → e.period ≤ e1)
+    (hb2 : si.period ≤ e2 ∧ ∀ e, e ∈ v.slashes → e.period ≤ e2) :
+    v.calcRewards h d sh e1 = w.calcRewards h d sh e2 := by
+  unfold VS.calcRewards
+  rw [hs1, hs2, hsl, htok]
+  dsimp only
+  by_cases hh : si.height = h
+  · rw [if_pos hh, if_pos hh]
+  · rw [if_neg hh, if_neg hh]
+    have hmem : ∀ e, e ∈ (if si.height < h then v.slashes.filter (fun e => si.height ≤ e.height && e.height ≤ h) else []) →
+        e ∈ v.slashes := by
+      intro e hm
+      split at hm
+      · exact (List.mem_filter.mp hm).1
+      · cases hm
+    rw [slashLoop_congr (v := v) (w := w) _ 0 si.period si.stake hsi (fun e hm => hev e (hmem e hm))]
+    cases hl : w.slashLoop (if si.height < h then v.slashes.filter (fun e => si.height ≤ e.height && e.height ≤ h) else [])
+        0 si.period si.stake with
+    | error x => rfl
+    | ok r =>
+      obtain ⟨rew, sp, stake⟩ := r
+      dsimp only
+      split
+      · rfl
+      · -- the final `between`
+        obtain ⟨_, hsp⟩ := slashLoop_bound (v := w) (B := e1) _ 0 si.period si.stake (rew, sp, stake)
+          (fun e hm => hb1.2 e (hmem e hm)) hb1.1 hl
+        have hr : v.ratioAt sp = w.ratioAt sp := by
+          rcases hsp with hsp | ⟨e, hm, hsp⟩
+          · dsimp only at hsp; rw [hsp]; exact hsi
+          · dsimp only at hsp; rw [hsp]; exact hev e (hmem e hm)
+        have hle1 : sp ≤ e1 := by
+          rcases hsp with hsp | ⟨e, hm, hsp⟩
+          · dsimp only at hsp; rw [hsp]; exact hb1.1
+          · dsimp only at hsp; rw [hsp]; exact hb1.2 e (hmem e hm)
+        have hle2 : sp ≤ e2 := by
+          rcases hsp with hsp | ⟨e, hm, hsp⟩
+          · dsimp only at hsp; rw [hsp]; exact hb2.1
+          · dsimp only at hsp; rw [hsp]; exact hb2.2 e (hmem e hm)
+        rw [between_congr hr hend hle1 hle2]
+
+/-- **third parties.**  The rewards the `delegationRewards` view reports for a delegator that is not a party of the
+transfer are the same before and after the transfer (same height, nothing else in between). -/
+theorem transfer_third_party {c : Cfg} (hg : good c = true) {n : Nat} {v v' : VS} (hi : VInv n v) {h f t X rf rt : Nat}
+    {recv : Bool} (hf : f < n) (htn : t < n) (hne : f ≠ t) (ht : VS.transfer c v h f t X recv = .ok (v', rf, rt))
+    {d : Nat} (hdf : d ≠ f) (hdt : d ≠ t) (hq : Nat) : v'.pendingRewards hq d = v.pendingRewards hq d := by
+  obtain ⟨fsh, _, hP, hcur, hrat, _, _, hoth, hold, hsl, hratP⟩ := transfer_shape hg hi hf htn hne ht
+  obtain ⟨_, _, _, _, htok', hsh', hdel'⟩ := transfer_del hg hne ht
+  have hi' : VInv n v' := by
+    rcases transfer_total hg hi (h := h) (f := f) (t := t) (X := X) (recv := recv) hf htn with ⟨e, he, _⟩ | ⟨v2, a, b, hr, hv2⟩
+    · rw [he] at ht; cases ht
+    · rw [hr] at ht; cases ht; exact hv2
+  have hdeld : v'.del d = v.del d := by rw [hdel']; simp [setAt, hdf, hdt]
+  unfold VS.pendingRewards
+  rw [hdeld]
+  cases hd : v.del d with
+  | none => rfl
+  | some sh =>
+    dsimp only
+    have hdn : d < n := by
+      by_cases hlt : d < n
+      · exact hlt
+      · have := hi.sum.2 d (by omega)
+        rw [hd] at this; cases this
+    obtain ⟨si, hs⟩ := Dom_sinfo_some hi.dom hd
+    obtain ⟨v1, h1, i1, f1, p1, s1, e1, sf1⟩ := incPeriod_total hi.ri v.tokens
+    obtain ⟨w1, g1, j1, k1, q1, t1, u1, sg1⟩ := incPeriod_total hi'.ri v'.tokens
+    rw [h1, g1]
+    dsimp only
+    obtain ⟨_, rv, _, _⟩ := incPeriod_shape h1
+    obtain ⟨_, rw1, _, _⟩ := incPeriod_shape g1
+    have hsv : v1.sinfo d = some si := by rw [s1]; exact hs
+    have hsw : w1.sinfo d = some si := by rw [t1, hoth d hdf hdt]; exact hs
+    have hsp := hi.ri.sper d si hs
+    -- ratios of referenced old periods agree
+    have hold1 : ∀ x, x < v.period → v1.refs x ≠ 0 → w1.refs x ≠ 0 → w1.ratioAt x = v1.ratioAt x := by
+      intro x hx a b
+      unfold VS.ratioAt
+      rw [if_neg a, if_neg b, rv, rw1]
+      have n1 : x ≠ v.period := by omega
+      have n2 : x ≠ v'.period := by omega
+      simp only [setAt, n1, n2, if_false]
+      exact hold x hx
+    have hcong : w1.calcRewards hq d sh v'.period = v1.calcRewards hq d sh v.period := by
+      apply calcRewards_congr hsw hsv
+      · rw [e1, u1, hsl]
+      · simp only [VS.tokensFromShares, sf1.2.1, sf1.2.2, sg1.2.1, sg1.2.2, htok', hsh']
+      · exact hold1 si.period (by omega) (i1.refs_info_pos hdn hsv) (j1.refs_info_pos hdn hsw)
+      · intro e he
+        have hev : e ∈ v.slashes := by rw [u1, hsl] at he; exact he
+        have := hi.ri.eper e hev
+        exact hold1 e.period (by omega) (i1.refs_slash_pos (by rw [e1]; exact hev)) (j1.refs_slash_pos he)
+      · -- the two ending records
+        have ew : w1.period - 1 = v'.period := by omega
+        have ev : v1.period - 1 = v.period := by omega
+        rw [ew] at k1
+        rw [ev] at f1
+        unfold VS.ratioAt
+        rw [if_neg (by rw [k1]; omega), if_neg (by rw [f1]; omega), rw1, rv]
+        simp only [setAt, if_true]
+        rw [curRatio_zero hcur, Nat.add_zero]
+        unfold VS.ratioAt
+        rw [if_neg hi'.ri.refs_cur_pos]
+        have : v'.period - 1 = v.period + 1 := by omega
+        rw [this, ← hrat, hratP]
+        rfl
+      · refine ⟨by omega, ?_⟩
+        intro e he
+        have hev : e ∈ v.slashes := by rw [u1, hsl] at he; exact he
+        have := hi.ri.eper e hev
+        omega
+      · refine ⟨by omega, ?_⟩
+        intro e he
+        have hev : e ∈ v.slashes := by rw [u1, hsl] at he; exact he
+        have := hi.ri.eper e hev
+        omega
+    rw [hcong]
 
 end FxVerif.Proofs.C11
